@@ -233,6 +233,16 @@ func moves() []move {
 		{"inner-prime-substituted", "s2c", 2, func(e *env, v int, p []byte) []byte {
 			return reInner(e, p, func(in *mt.ServerDHInnerData) { ps := primes(e); in.DhPrime = ps[v%len(ps)].Bytes() })
 		}},
+		// a complete, well-formed but different group: genuine safe primes of other sizes with a generator
+		// that obeys the residue rule (RFC 3526 MODP primes, g = 2 / 4), and the 2048-bit one (a valid group
+		// that is not the server's: the exchange must still fail, at the latest at new_nonce_hash1)
+		{"inner-group-substituted", "s2c", 2, func(e *env, v int, p []byte) []byte {
+			return reInner(e, p, func(in *mt.ServerDHInnerData) {
+				bits := []int{3072, 1536, 2048, 3072}[v%4]
+				in.DhPrime = xkit.MODPPrime(bits).Bytes()
+				in.G = []int{2, 2, 2, 4}[v%4]
+			})
+		}},
 		{"inner-prime-bitflip", "s2c", 2, func(e *env, v int, p []byte) []byte {
 			return reInner(e, p, func(in *mt.ServerDHInnerData) { flip(in.DhPrime, v) })
 		}},
@@ -611,12 +621,14 @@ func main() {
 			switch mv.Name { // moves with an enumerated set of substituted values: cover them all over the variants
 			case "inner-prime-substituted":
 				nv = 8
+			case "inner-group-substituted":
+				nv = 4
 			case "respq-pq-unfactorable":
 				nv = 6
 			case "inner-generator-substituted", "inner-ga-out-of-range":
 				nv = 10
 			}
-			if !c.Thorough() && nv > 1 && mv.Name != "respq-pq-unfactorable" {
+			if !c.Thorough() && nv > 1 && mv.Name != "respq-pq-unfactorable" && mv.Name != "inner-group-substituted" {
 				// quick: three values per run, rotating with the seed
 				for k := 0; k < 3; k++ {
 					one(runCfg{Move: mv.Name, Variant: (int(c.Seed)*3 + k) % nv, Seed: c.Rng.U64(), Temp: c.Rng.Bool()}, mv)
@@ -632,6 +644,6 @@ func main() {
 			}
 		}
 	}
-	c.Obs.Rule = "one adversary move per exchange, every move of the library once per repetition (1 in quick, 12 in thorough) with a random bit position / the enumerated substituted values (all in thorough, three per run in quick): ResPQ {nonce, server_nonce, fingerprint flips; own RSA key; no fingerprints; pq > 2^63; pq in {0,1,2,3,1000003, largest prime < 2^63}; one pq bit flipped (must not panic or hang); replay}, Server_DH_Params {nonce flips; ciphertext flip / truncation / zeros; answer from a peer without new_nonce; replay; fail message; inner nonce flips; prime substituted by composite, non-safe prime, 2047/2049-bit, small, 0, 2^2047; prime bit flip; generator 0,1,8,9,-1 or failing the residue rule; g_a in {0,1,p-1,p,2,2^1984-5,2^1984,p-2^1984,p-2^1984+3,p+12345}}, dh_gen {nonce flips, hash flip / random, retry, fail, replay}, raw bit flips in each server message, bit flips in the encrypted parts of the client's messages; plus two honest baselines; non-trivial = distinct (move, variant, seed)"
+	c.Obs.Rule = "one adversary move per exchange, every move of the library once per repetition (1 in quick, 12 in thorough) with a random bit position / the enumerated substituted values (all in thorough, three per run in quick): ResPQ {nonce, server_nonce, fingerprint flips; own RSA key; no fingerprints; pq > 2^63; pq in {0,1,2,3,1000003, largest prime < 2^63}; one pq bit flipped (must not panic or hang); replay}, Server_DH_Params {nonce flips; ciphertext flip / truncation / zeros; answer from a peer without new_nonce; replay; fail message; inner nonce flips; prime substituted by composite, non-safe prime, 2047/2049-bit, small, 0, 2^2047; prime bit flip; whole group replaced by an RFC 3526 safe prime of 1536 / 2048 / 3072 bits with g = 2 or 4; generator 0,1,8,9,-1 or failing the residue rule; g_a in {0,1,p-1,p,2,2^1984-5,2^1984,p-2^1984,p-2^1984+3,p+12345}}, dh_gen {nonce flips, hash flip / random, retry, fail, replay}, raw bit flips in each server message, bit flips in the encrypted parts of the client's messages; plus two honest baselines; non-trivial = distinct (move, variant, seed)"
 	c.Finish()
 }
